@@ -1,1 +1,518 @@
-/- C08 — property theorems (to be written) -/
+/-
+  C08 — splitting partitions a fiber losslessly at exactly the specified boundaries.
+  Property theorems only; helper lemmas live in FtProofs/Lemmas/Split*.lean.
+
+  Reading guide.  `splitUniformIter`, `splitNonUniformIter`, `splitEqualIter`, `splitUnEqualIter`
+  (FtModel/Split.lean) mirror the Python loops; `uSpec` / `nuSpec` / `chunkParts` are the
+  declarative results.  `elems` are the presented (non-empty) elements of the fiber in storage
+  order, `[as, ae)` its active range.  `none` = the implementation raises.
+-/
+import FtProofs.Lemmas.SplitUniform
+import FtProofs.Lemmas.SplitNonUniform
+import FtProofs.Lemmas.SplitSpec
+import FtProofs.Lemmas.SplitChunks
+set_option linter.unusedSectionVars false
+set_option linter.unusedSimpArgs false
+set_option linter.unusedVariables false
+namespace Ft
+
+section
+variable {π : Type}
+
+/-! ### the splitters compute their specifications -/
+
+/-- **Uniform split.**  For every positive step, non-negative halos, non-empty active range and
+    ascending fiber, the two nested loops with their lookup-or-append and `search_start` shortcut
+    return: for each multiple `P` of `step` whose interval `[P, P+step)` meets the active range,
+    in ascending order, the presented elements of `[P-pre, P+step+post)` inside the halo-extended
+    active range, in order, payloads untouched; empty partitions are not created; each lower's
+    active range is `[max P as, min (P+step) ae)`; `relativeCoords` subtracts `P`. -/
+theorem uniform_spec (step pre post as ae : Int) (rel : Bool) (elems : Fib Int π)
+    (hstep : 0 < step) (hact : as < ae) (hpre : 0 ≤ pre) (hpost : 0 ≤ post) (hsorted : Sorted elems) :
+    splitUniformIter step pre post as ae rel elems = some (uSpec step pre post as ae rel elems) :=
+  splitUniformIter_eq step pre post as ae hstep hact hpre hpost rel elems hsorted
+
+example : splitUniformIter 2 1 1 0 6 false [((1 : Int), (10 : Int)), (2, 20), (5, 50)] =
+    some [⟨0, [(1, 10), (2, 20)], 0, 2⟩, ⟨2, [(1, 10), (2, 20)], 2, 4⟩, ⟨4, [(5, 50)], 4, 6⟩] := by
+  decide
+
+/-- **Non-uniform split** — partial: proved for ascending boundary lists all of whose boundaries lie
+    below the active end.  (With a boundary at/after the active end the code raises `ValueError`
+    for an element in that boundary's pre-halo, see `nonuniform_crash_witness`.)  Partition `i` is
+    `[S[i], S[i+1])`, the last one unbounded; elements below the first boundary belong to no partition. -/
+theorem nonuniform_spec_partial (S : List Int) (pre post as ae : Int) (rel : Bool) (elems : Fib Int π)
+    (hS : S.Pairwise (· < ·)) (hpre : 0 ≤ pre) (hpost : 0 ≤ post) (hsorted : Sorted elems)
+    (hin : ∀ s ∈ S, s < ae) :
+    splitNonUniformIter S pre post as ae rel elems = some (nuSpec S pre post as ae rel elems) :=
+  splitNonUniformIter_eq S pre post as ae hS rel elems hsorted
+    (fun y _ hw h0 => cover_of_lt_ae S pre post as ae hS hin hpre hpost y.1 hw h0)
+
+example : splitNonUniformIter [0, 3] 1 0 0 6 true [((1 : Int), (10 : Int)), (2, 20), (5, 50)] =
+    some [⟨0, [(1, 10), (2, 20)], 0, 3⟩, ⟨3, [(-1, 20), (2, 50)], 3, 6⟩] := by
+  decide
+
+/-- the excluded class is real: `Fiber([3],[5]).splitNonUniform([4], pre_halo=1)` (active range
+    `[0,4)`) raises in the model exactly as in the implementation -/
+theorem nonuniform_crash_witness :
+    splitNonUniformIter [4] 1 0 0 4 false [((3 : Int), (5 : Int))] = none := by decide
+
+/-- the same statement under the weakest hypothesis the proof needs: every element inside the
+    window that reaches the first boundary's pre-halo belongs to some partition -/
+theorem nonuniform_spec_of_cover (S : List Int) (pre post as ae : Int) (rel : Bool) (elems : Fib Int π)
+    (hS : S.Pairwise (· < ·)) (hsorted : Sorted elems)
+    (hcover : ∀ y ∈ elems, inWindow as ae pre post y.1 = true →
+      (∃ s0, S[0]? = some s0 ∧ s0 - pre ≤ y.1) → ∃ i, nuMemb S pre post as ae i y.1 = true) :
+    splitNonUniformIter S pre post as ae rel elems = some (nuSpec S pre post as ae rel elems) :=
+  splitNonUniformIter_eq S pre post as ae hS rel elems hsorted hcover
+
+/-- **splitEqual**: never raises; it is the non-uniform split at the boundaries `active start,
+    coordinate of every step-th active element` -/
+theorem equal_spec (step pre post as ae : Int) (rel : Bool) (elems : Fib Int π)
+    (hact : as < ae) (hpre : 0 ≤ pre) (hpost : 0 ≤ post) (hsorted : Sorted elems) :
+    splitEqualIter step pre post as ae rel elems =
+      some (nuSpec (equalBounds step as (iterActive as ae elems)) pre post as ae rel elems) := by
+  obtain ⟨h1, h2⟩ := bounds_ok as ae elems hsorted hact _ (equalBounds_sublist step as (iterActive as ae elems))
+  exact nonuniform_spec_partial _ pre post as ae rel elems h1 hpre hpost hsorted h2
+
+example : splitEqualIter 2 0 0 0 8 false [((1 : Int), (10 : Int)), (2, 20), (5, 50)] =
+    some [⟨0, [(1, 10), (2, 20)], 0, 5⟩, ⟨5, [(5, 50)], 5, 8⟩] := by decide
+
+/-- **splitUnEqual**: never raises; non-uniform split at the boundaries selected by the sizes -/
+theorem unequal_spec (sizes : List Int) (pre post as ae : Int) (rel : Bool) (elems : Fib Int π)
+    (hact : as < ae) (hpre : 0 ≤ pre) (hpost : 0 ≤ post) (hsorted : Sorted elems) :
+    splitUnEqualIter sizes pre post as ae rel elems =
+      some (nuSpec (unequalBounds sizes as (iterActive as ae elems)) pre post as ae rel elems) := by
+  obtain ⟨h1, h2⟩ := bounds_ok as ae elems hsorted hact _ (unequalBounds_sublist sizes as (iterActive as ae elems))
+  exact nonuniform_spec_partial _ pre post as ae rel elems h1 hpre hpost hsorted h2
+
+example : splitUnEqualIter [1] 0 0 0 8 false [((1 : Int), (10 : Int)), (2, 20), (5, 50)] =
+    some [⟨0, [(1, 10)], 0, 2⟩, ⟨2, [(2, 20), (5, 50)], 2, 8⟩] := by decide
+
+end
+
+/-! ### what the specifications say -/
+
+section
+variable {π : Type}
+
+/-- upper coordinates strictly ascending (uniform) -/
+theorem upper_ascending (step pre post as ae : Int) (rel : Bool) (elems : Fib Int π) (hstep : 0 < step) :
+    ((uSpec step pre post as ae rel elems).map (·.start)).Pairwise (· < ·) :=
+  uSpec_starts step pre post as ae hstep rel elems
+
+/-- upper coordinates strictly ascending (non-uniform / equal / unequal: any ascending boundary list) -/
+theorem upper_ascending_nonuniform (S : List Int) (pre post as ae : Int) (rel : Bool) (elems : Fib Int π)
+    (hS : S.Pairwise (· < ·)) :
+    ((nuSpec S pre post as ae rel elems).map (·.start)).Pairwise (· < ·) :=
+  nuSpec_starts S pre post as ae hS rel elems
+
+/-- **halo membership, uniform**: an upper coordinate is a multiple of `step` whose interval meets the
+    active range; its lower is non-empty and contains precisely the presented elements of the
+    halo-extended active range that lie in `[P - pre, P + step + post)` -/
+theorem halo_membership (step pre post as ae : Int) (elems : Fib Int π) (hstep : 0 < step)
+    (p : Part π) (hp : p ∈ uSpec step pre post as ae false elems) :
+    step ∣ p.start ∧ as < p.start + step ∧ p.start < ae ∧ p.elems ≠ [] ∧
+    p.elems.Sublist elems ∧
+    ∀ e, e ∈ p.elems ↔ e ∈ elems ∧ as - pre ≤ e.1 ∧ e.1 < ae + post ∧
+      p.start - pre ≤ e.1 ∧ e.1 < p.start + step + post := by
+  obtain ⟨P, hP, hne, rfl⟩ := (mem_uSpec step pre post as ae false elems p).1 hp
+  obtain ⟨h1, h2, h3⟩ := (mem_uCands step as ae hstep P).1 hP
+  refine ⟨h1, h2, h3, hne, List.filter_sublist, ?_⟩
+  intro e
+  show e ∈ elems.filter _ ↔ _
+  rw [List.mem_filter]
+  simp only [uMemb, inWindow, Bool.and_eq_true, decide_eq_true_eq, mkPart]
+  constructor
+  · rintro ⟨a, ⟨⟨b, c⟩, d⟩, f⟩; exact ⟨a, b, c, d, f⟩
+  · rintro ⟨a, b, c, d, f⟩; exact ⟨a, ⟨⟨b, c⟩, d⟩, f⟩
+
+/-- … and every such (partition, element) pair is present: an element appears in *precisely* the
+    partitions whose halo-extended interval contains it -/
+theorem halo_cover (step pre post as ae : Int) (elems : Fib Int π) (hstep : 0 < step)
+    (P : Int) (hd : step ∣ P) (h1 : as < P + step) (h2 : P < ae)
+    (e : Int × π) (he : e ∈ elems) (hw1 : as - pre ≤ e.1) (hw2 : e.1 < ae + post)
+    (hi1 : P - pre ≤ e.1) (hi2 : e.1 < P + step + post) :
+    ∃ p ∈ uSpec step pre post as ae false elems, p.start = P ∧ e ∈ p.elems := by
+  have hmem : e ∈ elems.filter (fun e => uMemb step pre post as ae P e.1) := by
+    rw [List.mem_filter]
+    simp only [uMemb, inWindow, Bool.and_eq_true, decide_eq_true_eq]
+    exact ⟨he, ⟨⟨hw1, hw2⟩, hi1⟩, hi2⟩
+  refine ⟨_, (mem_uSpec step pre post as ae false elems _).2
+    ⟨P, (mem_uCands step as ae hstep P).2 ⟨hd, h1, h2⟩, List.ne_nil_of_mem hmem, rfl⟩, rfl, hmem⟩
+
+example : (⟨2, [((1 : Int), (10 : Int)), (2, 20)], 2, 4⟩ : Part Int) ∈
+    uSpec 2 1 1 0 6 false [((1 : Int), (10 : Int)), (2, 20), (5, 50)] := by decide
+
+/-- **halo membership, non-uniform**: partition `i` (it exists only if `[S[i], S[i+1])` meets the
+    active range) holds precisely the presented elements of the halo-extended active range inside
+    `[S[i] - pre, S[i+1] + post)` (no upper bound for the last boundary) -/
+theorem halo_membership_nonuniform (S : List Int) (pre post as ae : Int) (elems : Fib Int π)
+    (p : Part π) (hp : p ∈ nuSpec S pre post as ae false elems) :
+    ∃ i, ∃ h : i < S.length, p.start = S[i] ∧ S[i] < ae ∧ (∀ t, S[i + 1]? = some t → as < t) ∧
+      p.elems ≠ [] ∧ p.elems.Sublist elems ∧
+      ∀ e, e ∈ p.elems ↔ e ∈ elems ∧ as - pre ≤ e.1 ∧ e.1 < ae + post ∧
+        S[i] - pre ≤ e.1 ∧ ∀ t, S[i + 1]? = some t → e.1 < t + post := by
+  obtain ⟨i, hi, hne, rfl⟩ := (mem_nuSpec S pre post as ae false elems p).1 hp
+  obtain ⟨x, hx⟩ := List.exists_mem_of_ne_nil _ hne
+  rw [List.mem_filter] at hx
+  obtain ⟨s, hs, _, _, x3, x4, _⟩ := (nuMemb_iff S pre post as ae i x.1).1 hx.2
+  have hsi : S[i]? = some S[i] := List.getElem?_eq_getElem hi
+  rw [hsi] at hs; cases hs
+  refine ⟨i, hi, getD_eq_getElem S i hi, x4, fun t ht => (x3 t ht).1, hne, List.filter_sublist, ?_⟩
+  intro e
+  show e ∈ elems.filter _ ↔ _
+  rw [List.mem_filter, nuMemb_iff]
+  constructor
+  · rintro ⟨a, s, hs, b, c, d, _, f⟩
+    rw [hsi] at hs; cases hs
+    exact ⟨a, b, c, f, fun t ht => (d t ht).2⟩
+  · rintro ⟨a, b, c, d, f⟩
+    exact ⟨a, S[i], hsi, b, c, fun t ht => ⟨(x3 t ht).1, f t ht⟩, x4, d⟩
+
+/-- **lossless, uniform** (halo 0): the lowers concatenated in upper order are exactly the presented
+    elements of the active range, each once, in order, payloads untouched -/
+theorem lossless (step as ae : Int) (elems : Fib Int π) (hstep : 0 < step) (hsorted : Sorted elems) :
+    (uSpec step 0 0 as ae false elems).flatMap (·.elems) =
+      elems.filter (fun e => decide (as ≤ e.1) && decide (e.1 < ae)) :=
+  uSpec_lossless step as ae hstep elems hsorted
+
+/-- **lossless, non-uniform** (halo 0): … the presented active elements at/after the first boundary -/
+theorem lossless_nonuniform (S : List Int) (as ae : Int) (elems : Fib Int π) (hS : S.Pairwise (· < ·))
+    (hsorted : Sorted elems) :
+    (nuSpec S 0 0 as ae false elems).flatMap (·.elems) =
+      elems.filter (fun e => decide (as ≤ e.1) && decide (e.1 < ae) &&
+        (match S[0]? with | some s0 => decide (s0 ≤ e.1) | none => false)) :=
+  nuSpec_lossless S as ae hS elems hsorted
+
+/-- equal / unequal splits (halo 0) lose nothing: their first boundary is the active start -/
+theorem lossless_position (B : List Int) (as ae : Int) (elems : Fib Int π) (hB : B.Pairwise (· < ·))
+    (hsorted : Sorted elems) (h0 : B[0]? = some as) :
+    (nuSpec B 0 0 as ae false elems).flatMap (·.elems) =
+      elems.filter (fun e => decide (as ≤ e.1) && decide (e.1 < ae)) := by
+  rw [nuSpec_lossless B as ae hB elems hsorted, h0]
+  apply filter_congr'
+  intro x _
+  by_cases h : as ≤ x.1 <;> simp [h]
+
+/-- **active ranges, uniform**: each lower's active range is its interval clipped to the parent's,
+    it is non-empty, inside the parent's, and (halo 0) contains all the lower's elements -/
+theorem active_clip (step pre post as ae : Int) (rel : Bool) (elems : Fib Int π) (hstep : 0 < step)
+    (hact : as < ae) (p : Part π) (hp : p ∈ uSpec step pre post as ae rel elems) :
+    p.lo = max p.start as ∧ p.hi = min (p.start + step) ae ∧ as ≤ p.lo ∧ p.lo < p.hi ∧ p.hi ≤ ae := by
+  obtain ⟨P, hP, _, rfl⟩ := (mem_uSpec step pre post as ae rel elems p).1 hp
+  obtain ⟨_, h2, h3⟩ := (mem_uCands step as ae hstep P).1 hP
+  refine ⟨rfl, rfl, ?_, ?_, ?_⟩
+  · show as ≤ max P as; omega
+  · show max P as < min (P + step) ae; omega
+  · show min (P + step) ae ≤ ae; omega
+
+theorem active_contains (step as ae : Int) (elems : Fib Int π) (hstep : 0 < step)
+    (p : Part π) (hp : p ∈ uSpec step 0 0 as ae false elems) :
+    ∀ e ∈ p.elems, p.lo ≤ e.1 ∧ e.1 < p.hi := by
+  obtain ⟨P, hP, _, rfl⟩ := (mem_uSpec step 0 0 as ae false elems p).1 hp
+  intro e he
+  have he' : e ∈ elems.filter (fun e => uMemb step 0 0 as ae P e.1) := he
+  rw [List.mem_filter] at he'
+  have := he'.2
+  simp only [uMemb, inWindow, Bool.and_eq_true, decide_eq_true_eq] at this
+  show max P as ≤ e.1 ∧ e.1 < min (P + step) ae
+  omega
+
+/-- **active ranges, non-uniform** -/
+theorem active_clip_nonuniform (S : List Int) (pre post as ae : Int) (rel : Bool) (elems : Fib Int π)
+    (hS : S.Pairwise (· < ·)) (hact : as < ae) (p : Part π) (hp : p ∈ nuSpec S pre post as ae rel elems) :
+    ∃ i, ∃ h : i < S.length, p.start = S[i] ∧ p.lo = max S[i] as ∧
+      p.hi = (match S[i + 1]? with | some t => min t ae | none => ae) ∧
+      as ≤ p.lo ∧ p.lo < p.hi ∧ p.hi ≤ ae := by
+  obtain ⟨i, hi, hne, rfl⟩ := (mem_nuSpec S pre post as ae rel elems p).1 hp
+  obtain ⟨x, hx⟩ := List.exists_mem_of_ne_nil _ hne
+  rw [List.mem_filter] at hx
+  obtain ⟨s, hs, _, _, x3, x4, _⟩ := (nuMemb_iff S pre post as ae i x.1).1 hx.2
+  have hsi : S[i]? = some S[i] := List.getElem?_eq_getElem hi
+  rw [hsi] at hs; cases hs
+  have hg := getD_eq_getElem S i hi
+  refine ⟨i, hi, hg, ?_, rfl, ?_⟩
+  · show max (S.getD i 0) as = max S[i] as; rw [hg]
+  · show as ≤ max (S.getD i 0) as ∧ max (S.getD i 0) as < nuHi S ae i ∧ nuHi S ae i ≤ ae
+    rw [hg]
+    unfold nuHi
+    cases hn : S[i + 1]? with
+    | none => simp only; omega
+    | some t =>
+      have h1 := (x3 t hn).1
+      have h2 : S[i] < t := sorted_getElem?_lt S hS (Nat.lt_succ_self i) hsi hn
+      simp only; omega
+
+/-- **relative coordinates** are the offsets from the partition start, everything else unchanged -/
+theorem relative_spec (step pre post as ae : Int) (elems : Fib Int π) :
+    uSpec step pre post as ae true elems =
+      (uSpec step pre post as ae false elems).map
+        (fun p => { p with elems := p.elems.map (fun e => (e.1 - p.start, e.2)) }) := by
+  rw [uSpec_eq_map, uSpec_eq_map, List.map_map]
+  rfl
+
+theorem relative_spec_nonuniform (S : List Int) (pre post as ae : Int) (elems : Fib Int π) :
+    nuSpec S pre post as ae true elems =
+      (nuSpec S pre post as ae false elems).map
+        (fun p => { p with elems := p.elems.map (fun e => (e.1 - p.start, e.2)) }) := by
+  unfold nuSpec
+  rw [List.map_filterMap]
+  apply filterMap_congr'
+  intro i _
+  by_cases h : (elems.filter (fun e => nuMemb S pre post as ae i e.1)).isEmpty = true <;> simp [h, mkPart]
+
+example : uSpec 2 0 0 0 6 true [((1 : Int), (10 : Int)), (3, 30)] =
+    [⟨0, [(1, 10)], 0, 2⟩, ⟨2, [(1, 30)], 2, 4⟩] := by decide
+
+/-- **partitions of partitions tile the original** (absolute coordinates, halo 0): re-splitting every
+    lower uniformly, with the lower's own active range, loses and duplicates nothing -/
+theorem resplit_tiles (step step2 as ae : Int) (elems : Fib Int π) (hstep : 0 < step) (hstep2 : 0 < step2)
+    (hsorted : Sorted elems) :
+    (uSpec step 0 0 as ae false elems).flatMap
+        (fun p => (uSpec step2 0 0 p.lo p.hi false p.elems).flatMap (·.elems)) =
+      elems.filter (fun e => decide (as ≤ e.1) && decide (e.1 < ae)) := by
+  rw [← uSpec_lossless step as ae hstep elems hsorted]
+  apply flatMap_congr'
+  intro p hp
+  have hsub : p.elems.Sublist elems := (halo_membership step 0 0 as ae elems hstep p hp).2.2.2.2.1
+  have hps : Sorted p.elems := List.Pairwise.sublist hsub hsorted
+  rw [uSpec_lossless step2 p.lo p.hi hstep2 p.elems hps, List.filter_eq_self]
+  intro e he
+  have := active_contains step as ae elems hstep p hp e he
+  simp only [Bool.and_eq_true, decide_eq_true_eq]
+  exact this
+
+example : (uSpec 4 0 0 0 8 false [((1 : Int), (10 : Int)), (3, 30), (6, 60)]).flatMap
+    (fun p => (uSpec 2 0 0 p.lo p.hi false p.elems).map (fun q => (q.start, q.lo, q.hi))) =
+    [(0, 0, 2), (2, 2, 4), (6, 6, 8)] := by decide
+
+/-- `/`: at most `n` partitions -/
+theorem truediv_parts (shape n : Int) (rel : Bool) (elems : Fib Int π) (hshape : 0 < shape) (hn : 0 < n) :
+    (uSpec (truedivStep shape n) 0 0 0 shape rel elems).length ≤ n.toNat := by
+  unfold uSpec
+  refine Nat.le_trans (List.length_filterMap_le _ _) ?_
+  unfold uCands truedivStep
+  simp only [List.length_map, List.length_range]
+  have h1 := Int.lt_ediv_add_one_mul_self (shape + n - 1) hn
+  rw [succ_mul'] at h1
+  have hst : 0 < (shape + n - 1) / n := by
+    have : (1 : Int) ≤ (shape + n - 1) / n := (Int.le_ediv_iff_mul_le hn).2 (by omega)
+    omega
+  have h2 : (shape - 1) / ((shape + n - 1) / n) < n := by
+    apply (Int.ediv_lt_iff_lt_mul hst).2
+    rw [Int.mul_comm]; omega
+  have h3 : (0 : Int) / ((shape + n - 1) / n) = 0 := Int.zero_ediv _
+  rw [h3]
+  omega
+
+end
+
+/-! ### splitting at a depth -/
+
+section
+variable {ν : Type} [DecidableEq ν]
+
+/-- **depth**: `split…(depth = k)` replaces every fiber reached by a coordinate path of length `k`
+    by its split and leaves the levels above untouched — whatever sits above (explicit defaults,
+    empty sub-fibers included) -/
+theorem depth_spec (cfg : SplitCfg) (dflt : ν) (d : Nat) :
+    ∀ (k : Nat) (t : Tree Int ν (d + 1 + k)) (r : Tree Int ν (d + 2 + k)),
+      splitAt cfg dflt d k t = some r →
+      ∀ path, subAt (d + 2) k r path = (subAt (d + 1) k t path).bind (splitFiber cfg dflt d) := by
+  intro k
+  induction k with
+  | zero =>
+    intro t r h path
+    cases path with
+    | nil => simp only [subAt, Option.bind_some]; exact h.symm
+    | cons c cs => simp [subAt]
+  | succ k ih =>
+    intro t r h path
+    cases path with
+    | nil => simp [subAt]
+    | cons c cs =>
+      unfold splitAt at h
+      cases hm : mapM? (fun e => (splitAt cfg dflt d k e.2).map (fun t => (e.1, t)))
+          (show List (Int × Tree Int ν (d + 1 + k)) from t) with
+      | none => rw [hm] at h; cases h
+      | some l =>
+        rw [hm] at h
+        have hr : r = l := (Option.some.inj h).symm
+        subst hr
+        have hl := lookup_mapM? (splitAt cfg dflt d k) c _ _ hm
+        simp only [subAt]
+        rw [hl]
+        cases hlk : lookup (show List (Int × Tree Int ν (d + 1 + k)) from t) c with
+        | none => rfl
+        | some s =>
+          simp only [Option.bind_some]
+          cases hs : splitAt cfg dflt d k s with
+          | none =>
+            exfalso
+            obtain ⟨e, he, hes⟩ := lookup_some_mem _ c s hlk
+            exact mapM?_some_of_mem (splitAt cfg dflt d k) _ _ hm e he (by rw [hes]; exact hs)
+          | some r' =>
+            simp only [Option.bind_some]
+            exact ih s r' hs cs
+
+/-- the levels above the split depth keep their coordinates, position by position -/
+theorem depth_coords (cfg : SplitCfg) (dflt : ν) (d k : Nat) (t : Tree Int ν (d + 1 + (k + 1)))
+    (r : Tree Int ν (d + 2 + (k + 1))) (h : splitAt cfg dflt d (k + 1) t = some r) :
+    (show List (Int × Tree Int ν (d + 2 + k)) from r).map (·.1) =
+      (show List (Int × Tree Int ν (d + 1 + k)) from t).map (·.1) := by
+  unfold splitAt at h
+  cases hm : mapM? (fun e => (splitAt cfg dflt d k e.2).map (fun t => (e.1, t)))
+      (show List (Int × Tree Int ν (d + 1 + k)) from t) with
+  | none => rw [hm] at h; cases h
+  | some l =>
+    rw [hm] at h
+    have hr : r = l := (Option.some.inj h).symm
+    subst hr
+    exact keys_mapM? (splitAt cfg dflt d k) _ _ hm
+
+end
+
+/-! ### position space: the lowers are the chunks -/
+
+section
+variable {π : Type}
+
+/-- **splitEqual in position space** (halo 0): the active presented elements are cut into
+    consecutive chunks of `step` elements, the remainder last; the first upper coordinate is the
+    active start, every other the first coordinate of its chunk; each lower's active range runs
+    from its upper coordinate to the next one (the last to the active end) -/
+theorem equal_chunks (step as ae : Int) (rel : Bool) (elems : Fib Int π)
+    (hstep : 1 ≤ step) (hact : as < ae) (hsorted : Sorted elems) :
+    splitEqualIter step 0 0 as ae rel elems =
+      some (chunkParts as ae rel (chunksOf step.toNat
+        (elems.filter (fun e => decide (as ≤ e.1) && decide (e.1 < ae))))) := by
+  rw [equal_spec step 0 0 as ae rel elems hact (Int.le_refl _) (Int.le_refl _) hsorted,
+    iterActive_eq_filter as ae elems hsorted, equalBounds_eq, eqBounds_chunks step as hstep _ 0 (by simp)]
+  have hn : step.toNat ≠ 0 := by omega
+  simp only [if_true]
+  rw [nuSpec_chunks as ae rel elems hsorted _ as (chunksOf_nonempty _ hn _) (Int.le_refl _)]
+  · rfl
+  · rw [chunksOf_flatten _ hn]
+    apply filter_congr'
+    intro x _
+    by_cases h : as ≤ x.1 <;> simp [h]
+
+example : splitEqualIter 2 0 0 0 9 false [((1 : Int), (10 : Int)), (2, 20), (5, 50), (6, 60), (8, 80)] =
+    some [⟨0, [(1, 10), (2, 20)], 0, 5⟩, ⟨5, [(5, 50), (6, 60)], 5, 8⟩, ⟨8, [(8, 80)], 8, 9⟩] := by decide
+
+/-- **splitUnEqual in position space** (halo 0) — partial: proved for a non-empty list of positive
+    sizes: chunks of the stated sizes, whatever remains in one last chunk.  (With `sizes = []` the
+    code returns no partition at all, see `unequal_empty_sizes_witness`.) -/
+theorem unequal_chunks_partial (sizes : List Int) (as ae : Int) (rel : Bool) (elems : Fib Int π)
+    (hne : sizes ≠ []) (hpos : ∀ s ∈ sizes, 1 ≤ s) (hact : as < ae) (hsorted : Sorted elems) :
+    splitUnEqualIter sizes 0 0 as ae rel elems =
+      some (chunkParts as ae rel (takeChunks (sizes.map Int.toNat)
+        (elems.filter (fun e => decide (as ≤ e.1) && decide (e.1 < ae))))) := by
+  rw [unequal_spec sizes 0 0 as ae rel elems hact (Int.le_refl _) (Int.le_refl _) hsorted,
+    iterActive_eq_filter as ae elems hsorted, unequalBounds_chunks sizes hne hpos as]
+  rw [nuSpec_chunks as ae rel elems hsorted _ as
+    (takeChunks_nonempty _ _ (by
+      intro s hs
+      obtain ⟨z, hz, rfl⟩ := List.mem_map.1 hs
+      have := hpos z hz
+      omega)) (Int.le_refl _)]
+  · rfl
+  · rw [takeChunks_flatten]
+    apply filter_congr'
+    intro x _
+    by_cases h : as ≤ x.1 <;> simp [h]
+
+example : splitUnEqualIter [1, 2] 0 0 0 9 false [((1 : Int), (10 : Int)), (2, 20), (5, 50), (6, 60), (8, 80)] =
+    some [⟨0, [(1, 10)], 0, 2⟩, ⟨2, [(2, 20), (5, 50)], 2, 6⟩, ⟨6, [(6, 60), (8, 80)], 6, 9⟩] := by decide
+
+/-- the excluded class is real: `Fiber([3],[5]).splitUnEqual([])` yields no partition although the
+    remainder rule would put the element into one final chunk -/
+theorem unequal_empty_sizes_witness :
+    splitUnEqualIter [] 0 0 0 4 false [((3 : Int), (5 : Int))] = some [] ∧
+    chunkParts 0 4 false (takeChunks ([] : List Nat) [((3 : Int), (5 : Int))]) = [⟨0, [(3, 5)], 0, 4⟩] := by
+  decide
+
+end
+
+section
+variable {π : Type}
+
+/-- `//`: at most `n` partitions (the chunk size is computed from the raw occupancy `occ`, the
+    chunks then count presented active elements — adopted reading DESIGN §7.1) -/
+theorem floordiv_parts (occ : Nat) (n as ae : Int) (rel : Bool) (elems : Fib Int π)
+    (hn : 0 < n) (hocc : elems.length ≤ occ) :
+    (chunkParts as ae rel (chunksOf (floordivStep occ n).toNat
+      (elems.filter (fun e => decide (as ≤ e.1) && decide (e.1 < ae))))).length ≤ n.toNat := by
+  unfold chunkParts
+  rw [chunkPartsFrom_length]
+  apply chunksOf_length_le
+  have hlen : (elems.filter (fun e => decide (as ≤ e.1) && decide (e.1 < ae))).length ≤ occ :=
+    Nat.le_trans (List.length_filter_le _ _) hocc
+  unfold floordivStep
+  have h1 := Int.lt_ediv_add_one_mul_self ((occ : Int) + n - 1) hn
+  rw [succ_mul'] at h1
+  have hq : 0 ≤ ((occ : Int) + n - 1) / n := Int.ediv_nonneg (by omega) (by omega)
+  have hcast : ((n.toNat * (((occ : Int) + n - 1) / n).toNat : Nat) : Int) = n * (((occ : Int) + n - 1) / n) := by
+    rw [Int.natCast_mul, Int.toNat_of_nonneg (by omega), Int.toNat_of_nonneg hq]
+  have : (occ : Int) ≤ ((n.toNat * (((occ : Int) + n - 1) / n).toNat : Nat) : Int) := by
+    rw [hcast, Int.mul_comm]; omega
+  omega
+
+end
+
+/-! ### non-vacuity: the hypotheses of the theorems above are satisfiable by non-trivial values
+    (each theorem is instantiated; every hypothesis is discharged by evaluation) -/
+
+section
+open Ft
+
+private def exF : Fib Int Int := [(1, 10), (2, 20), (5, 50), (6, 60), (8, 80)]
+private theorem exF_sorted : Sorted exF := (sortedB_iff exF).1 (by decide)
+
+example : splitUniformIter 2 1 1 0 9 true exF = some (uSpec 2 1 1 0 9 true exF) :=
+  uniform_spec 2 1 1 0 9 true exF (by decide) (by decide) (by decide) (by decide) exF_sorted
+example : (uSpec 2 1 1 0 9 true exF).length = 5 := by decide
+
+example : splitNonUniformIter [0, 3, 7] 1 2 0 9 false exF = some (nuSpec [0, 3, 7] 1 2 0 9 false exF) :=
+  nonuniform_spec_partial [0, 3, 7] 1 2 0 9 false exF (by decide) (by decide) (by decide) exF_sorted (by decide)
+example : (nuSpec [0, 3, 7] 1 2 0 9 false exF).length = 3 := by decide
+
+example := equal_spec 2 1 0 0 9 false exF (by decide) (by decide) (by decide) exF_sorted
+example := unequal_spec [1, 2] 0 1 0 9 false exF (by decide) (by decide) (by decide) exF_sorted
+example := equal_chunks 2 0 9 false exF (by decide) (by decide) exF_sorted
+example := unequal_chunks_partial [1, 2] 0 9 false exF (by decide) (by decide) (by decide) exF_sorted
+
+example := upper_ascending 2 1 1 0 9 false exF (by decide)
+example := upper_ascending_nonuniform [0, 3, 7] 1 2 0 9 false exF (by decide)
+example := halo_membership 2 1 1 0 9 exF (by decide) ⟨4, [(5, 50), (6, 60)], 4, 6⟩ (by decide)
+example := halo_cover 2 1 1 0 9 exF (by decide) 4 (by decide) (by decide) (by decide) (6, 60)
+  (by decide) (by decide) (by decide) (by decide) (by decide)
+example := halo_membership_nonuniform [0, 3, 7] 1 2 0 9 exF ⟨3, [(2, 20), (5, 50), (6, 60), (8, 80)], 3, 7⟩ (by decide)
+example := lossless 2 0 9 exF (by decide) exF_sorted
+example := lossless_nonuniform [2, 6] 0 9 exF (by decide) exF_sorted
+example := lossless_position [0, 5] 0 9 exF (by decide) exF_sorted rfl
+example := active_clip 4 1 1 1 7 false exF (by decide) (by decide) ⟨4, [(5, 50), (6, 60)], 4, 7⟩ (by decide)
+example := active_contains 4 1 7 exF (by decide) ⟨4, [(5, 50), (6, 60)], 4, 7⟩ (by decide)
+example := active_clip_nonuniform [0, 3, 7] 0 0 1 8 false exF (by decide) (by decide) ⟨0, [(1, 10), (2, 20)], 1, 3⟩ (by decide)
+example := resplit_tiles 4 2 0 9 exF (by decide) (by decide) exF_sorted
+example := truediv_parts 9 2 false exF (by decide) (by decide)
+example := floordiv_parts 5 2 0 9 false exF (by decide) (by decide)
+
+/-- the former defect witness: every fiber of depth 1 is split, the empty one included -/
+private def exT : Tree Int Int (0 + 1 + 1) :=
+  show List (Int × List (Int × Int)) from [(0, [(0, 1), (1, 2)]), (1, []), (2, [(3, 4)])]
+
+private def exR : Tree Int Int (0 + 2 + 1) :=
+  show List (Int × List (Int × List (Int × Int))) from
+    [(0, [(0, [(0, 1), (1, 2)])]), (1, []), (2, [(2, [(3, 4)])])]
+
+private def exCfg : SplitCfg := { op := .uniform 2 }
+
+private theorem exT_split : splitAt exCfg 0 0 1 exT = some exR := by decide
+
+example := depth_spec exCfg 0 0 1 exT exR exT_split [2]
+example := depth_coords exCfg 0 0 0 exT exR exT_split
+
+end
+
+end Ft
